@@ -150,6 +150,8 @@ where
             // This takes us out of the wait queue of the mutex. If the mutex was already handed over to us,
             // it gets passed on to the next waiter or is unlocked.
             std::mem::drop(lock_future);
+            #[cfg(feature = "verif_hooks")]
+            crate::verif_hooks::in_cs(3);
             LockableMapImpl::<K, V, C>::_delete_if_none_and_no_replicas(&mut entries, &self.key);
         }
     }
@@ -293,6 +295,8 @@ where
                 LoadOrInsertMutexResult::Inserted { guard }
             }
         };
+        #[cfg(feature = "verif_hooks")]
+        crate::verif_hooks::in_cs(4);
         Ok(result)
     }
 
@@ -384,6 +388,8 @@ where
                 LoadOrInsertMutexResult::Inserted { guard }
             }
         };
+        #[cfg(feature = "verif_hooks")]
+        crate::verif_hooks::in_cs(4);
         Ok(result)
     }
 
@@ -617,6 +623,8 @@ where
         // We need to get the `entries` lock before we drop the guard, see invariant 2C.
         let mut entries = self._entries();
         std::mem::drop(guard);
+        #[cfg(feature = "verif_hooks")]
+        crate::verif_hooks::in_cs(1);
 
         // Now the guard is dropped and the lock for this key is unlocked.
         // If there are any other Self::blocking_lock/async_lock/try_lock()
@@ -662,6 +670,8 @@ where
         key: &K,
         entry: ReplicaArc<tokio::sync::Mutex<EntryValue<C::WrappedV<V>>>>,
     ) {
+        #[cfg(feature = "verif_hooks")]
+        crate::verif_hooks::in_cs(7);
         // We have a lock on `entries` and invariant 2A ensures that no other threads or tasks can currently
         // increase num_replicas (i.e. `Arc::strong_count`) or create clones of this Arc. This means that if num_replicas == 1,
         // we know that we are the only ones with a handle to this `Arc` and we can clean it up without race conditions.
